@@ -483,7 +483,7 @@ def r2(ctx):
 
 
 # ------------------------------------------------------------------------------------------ R3
-@R.rule("C18-R3", floor=7, template="T-GUARD/T-FLOW",
+@R.rule("C18-R3", floor=8, template="T-GUARD/T-FLOW",
         desc="the wrapper is built only under _has_row_limiting_clause, with OFFSET/FETCH unavailable and not "
              "re-entrantly; rows are numbered in the statement's ORDER BY (MSSQL: over(order_by=<order by clauses>), "
              "an empty ORDER BY is rejected; Oracle: ROWNUM over the ordered inner select)")
@@ -545,6 +545,24 @@ def r3(ctx):
         ok = ok and ob is not None and "_order_by_clause" in _feeds(f2.node, ob) and (rn or "").upper().endswith("ROW_NUMBER")
     ctx.check(ok, f.key + ":order",
               "ROW_NUMBER() is not computed OVER the statement's ORDER BY clauses", "ROW_NUMBER() OVER (ORDER BY <order by>)", f.loc)
+    # (str2-g) ... and over the COMPLETE list: every ORDER BY term of the statement becomes a term of the window's ORDER BY.
+    # A term dropped between `_order_by_clause(s)` and over(order_by=..) (a filter, a de-duplication, a slice, a conditional
+    # append) leaves rows that tie on the remaining terms numbered arbitrarily: the window is no longer the slice.
+    g_ob = ctx.cfg(f2.node)
+    verdicts = []
+    for ov in over:
+        ob = {k.arg: k.value for k in ov.keywords}.get("order_by")
+        if ob is not None:
+            verdicts.append(_elementwise(g_ob, f2.node, ob))
+    unknown = [w for v, w in verdicts if v == "unknown"]
+    ctx.require(not unknown, f"{f.key}: how the window's ORDER BY list is built from the statement's is not understood: {unknown}")
+    some = [w for v, w in verdicts if v == "some"]
+    ctx.check(bool(verdicts) and not some, f.key + ":order-complete",
+              "the ORDER BY list inside ROW_NUMBER() OVER (...) is not the statement's complete ORDER BY: " + "; ".join(some)
+              + " -- rows that tie on the terms that are kept get arbitrary row numbers, so `rn > offset AND rn <= limit + offset` "
+                "no longer selects the slice of the fully ordered result (structural equality, e.g. ColumnElement.compare(), does not "
+                "make a term redundant: columns of two anonymous aliases of one table compare equal)",
+              "every term of select._order_by_clause reaches over(order_by=...) (element-wise, unconditionally)", f.loc)
     # an empty ORDER BY is rejected before the wrapper is built: with `_order_by_clause.clauses` forced empty no path
     # builds it (the checker helper is inlined by the normal form; if it cannot be inlined: a call of a method of the
     # class that raises under a test on _order_by_clause dominates every wrapper construction)
@@ -621,6 +639,169 @@ def _sources_of(fnode, name):
         elif isinstance(n, ast.NamedExpr) and isinstance(n.target, ast.Name) and n.target.id == name:
             out.append(n.value)
     return out
+
+
+_SRC_ATTRS = ("_order_by_clause", "_order_by_clauses")
+_DROPPING_CALLS = ("set", "frozenset", "filter", "fromkeys", "unique_list", "OrderedSet", "unique", "compress", "takewhile", "dropwhile",
+                   "islice", "filterfalse")
+_DROPPING_METHODS = ("remove", "pop", "clear", "discard", "difference", "difference_update", "intersection")
+
+
+def _cfg_guard_ids(g, st):
+    from ._helpers_rob_e1 import cfg_guards
+    return [(t, p) for t, p in cfg_guards(g, st)]
+
+
+def _const_true(test, pol):
+    return isinstance(test, ast.Constant) and bool(test.value) == pol
+
+
+def _elementwise(g, fnode, expr, depth=0, seen=None):
+    """Is the sequence `expr` an element-for-element image of the statement's ORDER BY list (every source term yields a
+    term, unconditionally)?  -> ('all', None) | ('some', why) | ('unknown', why).  Decided on data flow, not on the shape of
+    one statement: comprehension / map() / list() / a list filled by a loop are the same thing; a filter clause, a guarded
+    or skipped append, a slice, a set()/unique pass or a removal afterwards drop terms."""
+    seen = set() if seen is None else seen
+    if depth > 8:
+        return "unknown", "too deep"
+    pm = getattr(fnode, "_str2g_pm", None)
+    if pm is None:
+        pm = {c: p_ for p_ in ast.walk(fnode) for c in ast.iter_child_nodes(p_)}
+        fnode._str2g_pm = pm
+    e = expr
+    if isinstance(e, ast.Attribute):
+        if any(isinstance(x, ast.Attribute) and x.attr in _SRC_ATTRS for x in ast.walk(e)):
+            return "all", None
+        return "unknown", f"`{unparse(e)[:50]}` is not the statement's ORDER BY"
+    if isinstance(e, ast.Starred):
+        return _elementwise(g, fnode, e.value, depth + 1, seen)
+    if isinstance(e, (ast.List, ast.Tuple)):
+        if len(e.elts) == 1 and isinstance(e.elts[0], ast.Starred):
+            return _elementwise(g, fnode, e.elts[0].value, depth + 1, seen)
+        return "unknown", f"literal `{unparse(e)[:50]}`"
+    if isinstance(e, (ast.ListComp, ast.GeneratorExp)):
+        if len(e.generators) != 1:
+            return "unknown", f"nested comprehension `{unparse(e)[:60]}`"
+        gen = e.generators[0]
+        if gen.ifs:
+            return "some", f"the comprehension keeps a term only if `{unparse(gen.ifs[0])[:70]}`"
+        tn = {x.id for x in ast.walk(gen.target) if isinstance(x, ast.Name)}
+        if not any(isinstance(x, ast.Name) and x.id in tn for x in ast.walk(e.elt)):
+            return "unknown", f"`{unparse(e.elt)[:40]}` does not derive from the term"
+        return _elementwise(g, fnode, gen.iter, depth + 1, seen)
+    if isinstance(e, ast.Subscript):
+        if isinstance(e.slice, ast.Slice):
+            return "some", f"only the slice `{unparse(e)[:60]}` of the list is used"
+        return "unknown", f"`{unparse(e)[:50]}`"
+    if isinstance(e, ast.BinOp) and isinstance(e.op, ast.Add):
+        # concatenation adds terms, it drops none: complete if one operand is
+        rs = [_elementwise(g, fnode, x, depth + 1, seen) for x in (e.left, e.right)]
+        for v, w in rs:
+            if v == "some":
+                return v, w
+        return ("all", None) if any(v == "all" for v, _ in rs) else rs[0]
+    if isinstance(e, ast.Call):
+        nm = (call_name(e) or "").rsplit(".", 1)[-1]
+        if nm in _DROPPING_CALLS:
+            return "some", f"`{nm}(...)` removes terms (duplicates / non-matching ones) from the list"
+        if nm in ("list", "tuple", "iter", "reversed") and len(e.args) == 1 and nm != "reversed":
+            return _elementwise(g, fnode, e.args[0], depth + 1, seen)
+        if nm == "map" and len(e.args) == 2:
+            return _elementwise(g, fnode, e.args[1], depth + 1, seen)
+        if isinstance(e.func, ast.Attribute) and nm in ("copy", "__iter__") and not e.args:
+            return _elementwise(g, fnode, e.func.value, depth + 1, seen)
+        return "unknown", f"call `{unparse(e)[:60]}`"
+    if isinstance(e, ast.Name):
+        if e.id in seen:
+            return "all", None
+        seen = seen | {e.id}
+        results = []
+        fills = 0
+        for n in ast.walk(fnode):
+            # removals
+            if isinstance(n, ast.Call) and isinstance(n.func, ast.Attribute) and isinstance(n.func.value, ast.Name) \
+                    and n.func.value.id == e.id and n.func.attr in _DROPPING_METHODS:
+                return "some", f"`{unparse(n)[:60]}` removes terms from the list"
+            if isinstance(n, ast.Delete) and any(isinstance(t, ast.Subscript) and isinstance(t.value, ast.Name) and t.value.id == e.id
+                                                  for t in n.targets):
+                return "some", f"`{unparse(n)[:60]}` removes terms from the list"
+            # bindings
+            val = None
+            if isinstance(n, ast.Assign) and any(isinstance(t, ast.Name) and t.id == e.id for t in n.targets):
+                val = n.value
+            elif isinstance(n, ast.AnnAssign) and isinstance(n.target, ast.Name) and n.target.id == e.id and n.value is not None:
+                val = n.value
+            elif isinstance(n, ast.NamedExpr) and isinstance(n.target, ast.Name) and n.target.id == e.id:
+                val = n.value
+            if val is not None:
+                empty = (isinstance(val, (ast.List, ast.Tuple)) and not val.elts) or \
+                    (isinstance(val, ast.Call) and (call_name(val) or "") in ("list", "collections.deque", "deque") and not val.args)
+                if not empty:
+                    results.append(_elementwise(g, fnode, val, depth + 1, seen))
+                continue
+            # fills
+            fill_arg, st = None, None
+            if isinstance(n, ast.Call) and isinstance(n.func, ast.Attribute) and isinstance(n.func.value, ast.Name) \
+                    and n.func.value.id == e.id and n.func.attr in ("append", "extend", "insert", "appendleft") and n.args:
+                fill_arg, whole = n.args[-1], n.func.attr == "extend"
+                st = n
+                while st is not None and not isinstance(st, ast.stmt):
+                    st = pm.get(st)
+            elif isinstance(n, ast.AugAssign) and isinstance(n.target, ast.Name) and n.target.id == e.id and isinstance(n.op, ast.Add):
+                fill_arg, whole, st = n.value, True, n
+            if fill_arg is None or st is None:
+                continue
+            fills += 1
+            loop, cur = None, pm.get(st)
+            while cur is not None and cur is not fnode:
+                if isinstance(cur, (ast.For, ast.AsyncFor, ast.While)):
+                    loop = cur
+                    break
+                cur = pm.get(cur)
+            if loop is None:
+                if whole:
+                    results.append(_elementwise(g, fnode, fill_arg, depth + 1, seen))
+                continue  # one more term added outside a loop: drops nothing
+            if isinstance(loop, ast.While):
+                results.append(("unknown", "list filled by a while loop"))
+                continue
+            # every iteration must reach the fill: no branch outcome inside the loop dominates it, nothing leaves the loop early
+            outer = {(id(t), p) for t, p in _cfg_guard_ids(g, loop)}
+            inner = [(t, p) for t, p in _cfg_guard_ids(g, st) if (id(t), p) not in outer and not _const_true(t, p)]
+            if not g.nodes_for(st):
+                results.append(("unknown", "fill statement not in the CFG"))
+                continue
+            if inner:
+                t, p = inner[0]
+                results.append(("some", f"a term is added only when `{unparse(t)[:80]}` is {p}"))
+                continue
+            early = [x for x in ast.walk(loop) if isinstance(x, ast.Break)]
+            if early:
+                results.append(("some", f"the loop over the ORDER BY terms can stop early (break at line {early[0].lineno})"))
+                continue
+            tn = {x.id for x in ast.walk(loop.target) if isinstance(x, ast.Name)}
+            for _ in range(3):
+                for b in ast.walk(loop):
+                    if isinstance(b, ast.Assign) and any(isinstance(x, ast.Name) and x.id in tn for x in ast.walk(b.value)):
+                        tn |= {t.id for tt in b.targets for t in ast.walk(tt) if isinstance(t, ast.Name)}
+            if not any(isinstance(x, ast.Name) and x.id in tn for x in ast.walk(fill_arg)):
+                results.append(("unknown", f"`{unparse(fill_arg)[:40]}` does not derive from the loop's term"))
+                continue
+            results.append(_elementwise(g, fnode, loop.iter, depth + 1, seen))
+        if not results:
+            return "unknown", f"`{e.id}` has no binding that derives from the statement's ORDER BY"
+        for v, w in results:
+            if v == "some":
+                return v, w
+        # a binding that is not understood matters only if no other binding already explains the list
+        if any(v == "all" for v, _ in results) and all(v in ("all",) or "does not derive" in (w or "") or "is not the statement" in (w or "")
+                                                     for v, w in results):
+            return "all", None
+        for v, w in results:
+            if v == "unknown":
+                return v, w
+        return "all", None
+    return "unknown", f"`{unparse(e)[:60]}`"
 
 
 def _rejects_empty_order_by(fn: FuncInfo) -> bool:
@@ -1255,3 +1436,72 @@ R.mutant('benign-mssql-bounds-in-one-where-call', 'dialects/mssql/base.py',
 R.mutant('r1-mssql-one-where-call-lower-bound-inclusive', 'dialects/mssql/base.py',
          sub('                limitselect = limitselect.where(mssql_rn > offset_clause)\n                if limit_clause is not None:\n                    limitselect = limitselect.where(\n                        mssql_rn <= (limit_clause + offset_clause)\n                    )\n',
              '                if limit_clause is not None:\n                    limitselect = limitselect.where(\n                        mssql_rn >= offset_clause,\n                        mssql_rn <= (limit_clause + offset_clause),\n                    )\n                else:\n                    limitselect = limitselect.where(mssql_rn > offset_clause)\n'), 'C18-R1')
+
+# ---- str2-g: round-2 seeds C18/1 (seeded/C18_3: ORDER BY terms dropped before OVER()) and C18/2 (seeded/C18_4: the
+# merged max_row branches lose `+ offset` on one path) and relatives
+from ..report import chain as _chain  # noqa: E402
+
+_MS_OB = ('            _order_by_clauses = [\n                sql_util.unwrap_label_reference(elem)\n'
+          '                for elem in select._order_by_clause.clauses\n            ]\n')
+R.mutant('seed3-mssql-window-order-by-deduplicated', MS,
+         sub(_MS_OB,
+             '            _order_by_clauses = []\n            for elem in select._order_by_clause.clauses:\n'
+             '                elem = sql_util.unwrap_label_reference(elem)\n'
+             '                if not any(elem.compare(prev) for prev in _order_by_clauses):\n'
+             '                    _order_by_clauses.append(elem)\n'), 'C18-R3')
+R.mutant('r3-mssql-window-order-by-comprehension-filter', MS,
+         sub(_MS_OB,
+             '            _order_by_clauses = [\n                sql_util.unwrap_label_reference(elem)\n'
+             '                for elem in select._order_by_clause.clauses\n                if not elem._is_text_clause\n            ]\n'), 'C18-R3')
+R.mutant('r3-mssql-window-order-by-skips-with-continue', MS,
+         sub(_MS_OB,
+             '            _order_by_clauses = []\n            _seen = set()\n            for elem in select._order_by_clause.clauses:\n'
+             '                elem = sql_util.unwrap_label_reference(elem)\n'
+             '                if str(elem) in _seen:\n                    continue\n'
+             '                _seen.add(str(elem))\n                _order_by_clauses.append(elem)\n'), 'C18-R3')
+R.mutant('r3-mssql-window-order-by-first-term-only', MS,
+         sub('                    .over(order_by=_order_by_clauses)\n', '                    .over(order_by=_order_by_clauses[:1])\n'), 'C18-R3')
+R.mutant('r3-mssql-window-order-by-unique-pass', MS,
+         sub('                    .over(order_by=_order_by_clauses)\n',
+             '                    .over(order_by=list(dict.fromkeys(_order_by_clauses)))\n'), 'C18-R3')
+R.mutant('benign-mssql-window-order-by-map', MS,
+         sub(_MS_OB,
+             '            _order_by_clauses = list(\n                map(\n                    sql_util.unwrap_label_reference,\n'
+             '                    select._order_by_clause.clauses,\n                )\n            )\n'), None)
+R.mutant('benign-mssql-window-order-by-helper', MS,
+         _chain(sub(_MS_OB, '            _order_by_clauses = self._window_order_by(select)\n'),
+                sub('    def translate_select_structure(self, select_stmt, **kwargs):\n',
+                    '    def _window_order_by(self, select):\n        return [\n'
+                    '            sql_util.unwrap_label_reference(elem)\n'
+                    '            for elem in select._order_by_clause.clauses\n        ]\n\n'
+                    '    def translate_select_structure(self, select_stmt, **kwargs):\n')), None)
+R.mutant('benign-mssql-window-order-by-aliases', MS,
+         _chain(sub(_MS_OB,
+                    '            statement_terms = select._order_by_clause.clauses\n            window_terms = []\n'
+                    '            for term in statement_terms:\n                unwrapped = sql_util.unwrap_label_reference(term)\n'
+                    '                window_terms.append(unwrapped)\n'),
+                sub('                    .over(order_by=_order_by_clauses)\n',
+                    '                    .over(order_by=window_terms)\n')), None)
+_ORA_MAX = ('                    if select._simple_int_clause(limit_clause) and (\n                        offset_clause is None\n'
+            '                        or select._simple_int_clause(offset_clause)\n                    ):\n'
+            '                        max_row = limit_clause\n\n                        if offset_clause is not None:\n'
+            '                            max_row = max_row + offset_clause\n\n                    else:\n'
+            '                        max_row = limit_clause\n\n                        if offset_clause is not None:\n'
+            '                            max_row = max_row + offset_clause\n')
+R.mutant('seed4-oracle-merged-max-row-loses-offset-when-both-non-simple', OR,
+         sub(_ORA_MAX,
+             '                    max_row = limit_clause\n\n                    if offset_clause is not None and (\n'
+             '                        select._simple_int_clause(limit_clause)\n                        or select._simple_int_clause(offset_clause)\n'
+             '                    ):\n                        max_row = max_row + offset_clause\n\n'), 'C18-R1')
+R.mutant('r1-oracle-max-row-offset-only-on-simple-path', OR,
+         sub(_ORA_MAX,
+             '                    max_row = limit_clause\n                    if select._simple_int_clause(limit_clause):\n'
+             '                        if offset_clause is not None:\n                            max_row = max_row + offset_clause\n\n'), 'C18-R1')
+R.mutant('benign-oracle-max-row-branches-merged', OR,
+         sub(_ORA_MAX,
+             '                    max_row = limit_clause\n\n                    if offset_clause is not None:\n'
+             '                        max_row = max_row + offset_clause\n\n'), None)
+R.mutant('benign-oracle-max-row-ternary', OR,
+         sub(_ORA_MAX,
+             '                    max_row = (\n                        limit_clause\n                        if offset_clause is None\n'
+             '                        else limit_clause + offset_clause\n                    )\n\n'), None)
